@@ -131,6 +131,44 @@ def main():
                 if bres[k_]:
                     v.deviation("grow:big:%s" % k_, bres)
         stats["big_memory"] = bres
+        # 2c. the same at the level of a translated module: threads grow through different exported functions (with -f 1 in
+        #     different C files), built with and without -DNDEBUG (what release builds of embedders define)
+        import wasm_encode, machine
+        from wasmgen import b32
+        gbody = [["local.get", 0], ["memory.grow"], ["end"]]
+        gm = {"types": [{"p": ["i32"], "r": ["i32"]}, {"p": [], "r": ["i32"]}],
+              "funcs": [{"type": 0, "locals": [], "body": gbody}, {"type": 0, "locals": [], "body": [["nop"]] + gbody}, {"type": 1, "locals": [], "body": [["memory.size"], ["end"]]}],
+              "memory": {"min": 1, "max": 40, "shared": True},
+              "exports": [{"name": "growA", "kind": "func", "idx": 0}, {"name": "growB", "kind": "func", "idx": 1}, {"name": "size", "kind": "func", "idx": 2}]}
+        w2c2 = common.build_w2c2(os.path.join(wd, "w2c2bin"))
+        modres = {}
+        for split in ("one-file", "file-per-function"):
+            md = os.path.join(wd, "mg-" + split)
+            os.makedirs(md)
+            open(os.path.join(md, "mg.wasm"), "wb").write(wasm_encode.encode(machine.enc_module(machine.norm_module(gm))))
+            rc, out, err = run([w2c2, "-t", "1"] + (["-f", "1"] if split != "one-file" else []) + ["mg.wasm", "mg.c"], cwd=md, timeout=60)
+            if rc != 0:
+                v.deviation("grow:module:translate", {"split": split, "stderr": err[-400:]})
+                continue
+            srcs = sorted(f_ for f_ in os.listdir(md) if f_.endswith(".c"))
+            for ndebug in (False, True):
+                exe_m = os.path.join(md, "mg" + ("-ndebug" if ndebug else ""))
+                rc, out, err = run(["gcc", "-O2", "-w", "-DWASM_THREADS_PTHREADS"] + (["-DNDEBUG"] if ndebug else []) + ["-I", md, "-I", os.path.join(REPO, "w2c2"),
+                                    os.path.join(BINDC, "memgrow_module.c")] + srcs + ["-o", exe_m, "-lpthread", "-lm"], cwd=md, timeout=300)
+                if rc != 0:
+                    v.deviation("grow:module:compile", {"split": split, "ndebug": ndebug, "stderr": err[-600:]})
+                    continue
+                rc, out, err = run([exe_m, "40" if tier == "quick" else "600"], timeout=300)
+                key = "%s%s" % (split, "-ndebug" if ndebug else "")
+                try:
+                    modres[key] = json.loads(out.strip().splitlines()[-1])
+                except (ValueError, IndexError):
+                    v.deviation("grow:module:%s" % ("hang" if rc == -999 else "crash"), {"configuration": key, "rc": rc, "stderr": err[-400:]})
+                    continue
+                for k_, n_ in modres[key].items():
+                    if k_ != "rounds" and n_:
+                        v.deviation("grow:module:%s" % k_, dict(modres[key], configuration=key))
+        stats["module_level"] = modres
         # 3. race clause: ThreadSanitizer on real threads
         tsan = os.path.join(wd, "tsan")
         rc, out, err = run(["gcc", "-O1", "-g", "-w", "-fsanitize=thread", "-DWASM_THREADS_PTHREADS", "-I", os.path.join(REPO, "w2c2"),
@@ -158,7 +196,7 @@ def main():
                    "wasmMemoryGrow under the deterministic scheduler, all schedules up to the preemption bound; distinct = distinct API "
                    "histories, each validated by TLC against MemGrowAbs incl. the final page count; ThreadSanitizer observes real threads",
            "model_read_before_lock_rejected": m_old["rc"] != 0, "model_plain_size_read_races": m_race["rc"] != 0,
-           "tsan_races": races, "schedules_run": stats["schedules"], "proofs": stats.get("proof_MemGrowProof"), "big_memory": stats.get("big_memory"),
+           "tsan_races": races, "schedules_run": stats["schedules"], "proofs": stats.get("proof_MemGrowProof"), "big_memory": stats.get("big_memory"), "module_level": stats.get("module_level"),
            "exploration": {k_: v_ for k_, v_ in stats.items() if "seam" in k_ or "skipped" in k_}, "exhaustive": False}
     return v.finish("model_checking", cov,
                     ["schedules exhaustive up to the preemption bound only", "data-race freedom is observed by ThreadSanitizer on sampled real executions and "
